@@ -1,6 +1,6 @@
 (* C20 property theorems: statements closed by [exact lemma] + Print Assumptions. *)
 From V Require Import Common.Base C20.Protocol C20.ProtocolProofs C20.CtxLTS C20.CtxSpec C20.CtxProofs
-  C20.CtxMonA C20.CtxMonB C20.CtxMonC C20.CtxStale C20.ServiceSpec C20.ServiceLTS C20.ServiceProofs C20.PluginSpec C20.Plugin C20.PluginProofs.
+  C20.CtxMonA C20.CtxMonB C20.CtxMonC C20.CtxStale C20.WatchServe C20.WatchProofs C20.ServiceSpec C20.ServiceLTS C20.ServiceProofs C20.PluginSpec C20.Plugin C20.PluginProofs.
 
 (* writeUint32 / readUint32: little-endian round trip modulo 2^32, any trailing bytes *)
 Theorem uint32_roundtrip : forall n r, read32 (le32 n ++ r) = Some (n mod 4294967296, r).
@@ -214,3 +214,37 @@ Theorem service_cancel_waits_for_build_partial : forall s id h k s' oe,
   sexec s (SRespond id) = Some (s', oe) -> ctx_building k (s_cs s) = false.
 Proof. exact live_cancel_waits. Qed.
 Print Assumptions service_cancel_waits_for_build_partial.
+
+(* ---- watch mode and the dev server's view of a context (WatchServe.v) ---- *)
+
+(* Coalescing, for every interleaving of edits, client builds, watcher ticks,
+   serve requests and Dispose: the watcher goroutine starts a build only for a
+   change it has not built yet - in every prefix of every run the builds it
+   started number at most the edits so far.  (The same trace specification,
+   with one extra build allowed for Watch's unconditional first build, is
+   evaluated on the real histories: Harness.watch_hist_ok.) *)
+Theorem watch_builds_coalesced : forall acts s' tr, wrun ws0 acts = Some (s', tr) ->
+  wtrace_ok 0 tr = true /\ (w_wbuilds s' <= w_edits s')%nat.
+Proof. exact WatchProofs.watch_builds_coalesced. Qed.
+Print Assumptions watch_builds_coalesced.
+
+(* the recorded watch data never runs ahead of the inputs, and the watcher
+   never builds while a client build is active *)
+Theorem watch_data_safe : forall acts s' tr, wrun ws0 acts = Some (s', tr) ->
+  (w_watched s' <= w_edits s')%nat /\ (watcher_owns (w_wpc s') = true -> w_client s' = CNone).
+Proof. exact watch_safety. Qed.
+Print Assumptions watch_data_safe.
+
+(* Dispose returns only after the watcher goroutine has exited and no build is
+   active; afterwards no action starts a build or serves a result *)
+Theorem dispose_stops_watcher : forall acts s tr, wrun ws0 acts = Some (s, tr) -> w_dispRet s = true ->
+  (w_wpc s = WOff \/ w_wpc s = WExited) /\ w_client s = CNone /\ w_recent s = None /\
+  forall a s' l, wexec s a = Some (s', l) -> (forall b, l <> WBuild b) /\ (forall b, l <> WServed b) /\ w_nb s' = w_nb s.
+Proof. exact dispose_stops_watcher_all. Qed.
+Print Assumptions dispose_stops_watcher.
+
+(* what the dev server answers from ctx.recentBuild is the most recently finished build *)
+Theorem serve_recent_is_latest : forall acts s tr b, wrun ws0 acts = Some (s, tr) -> w_recent s = Some b ->
+  w_fver s b <> None /\ forall b' v, w_fver s b' = Some v -> (b' <= b)%nat.
+Proof. exact serve_recent_is_latest_all. Qed.
+Print Assumptions serve_recent_is_latest.
